@@ -65,7 +65,8 @@ StrTab == <<
   [dq |-> "k 2",                     sq |-> "k 2"],
   [dq |-> "",                        sq |-> ""],
   [dq |-> "...x **y *z _(",          sq |-> "...x **y *z _("],
-  [dq |-> "{ 'a': 1 }",              sq |-> "{ \\'a\\': 1 }"] >>
+  [dq |-> "{ 'a': 1 }",              sq |-> "{ \\'a\\': 1 }"],
+  [dq |-> ":1",                      sq |-> ":1"] >>
 
 \* Strings with nested template syntax.  q: the quote they are written in (escapes inside
 \* nested templates are not specified, so the quote kind is fixed per entry); c: content;
@@ -286,6 +287,57 @@ Denote(args) ==
   [args   |-> DPos(args, 1),
    kwargs |-> DKws(args, 1) \o [j \in 1..Len(ps) |-> E(Name(ps[j]), D(AggOf(args, 1, ps[j])))],
    flags  |-> {args[i].n : i \in {j \in 1..Len(args) : args[j].t = "flag"}}]
+
+(* ------------------------------ named deviations ---------------------- *)
+\* What the code under test is known to do instead of Denote on specific shapes (see
+\* /verif/KNOWN_FINDINGS.txt).  A deviation never makes a case pass: an observed outcome that
+\* equals a deviation's prediction is reported under the deviation's name (a finding key),
+\* anything else as a plain violation.  outcome: "values" (expect holds the received values),
+\* "tse" (TemplateSyntaxError) or "exc:<ExceptionClass>"; path: "both" or "comp".
+FlagNames == {"only"}
+NoValues == [args |-> <<>>, kwargs |-> <<>>, flags |-> {}]
+IsKwish(a) == a.t \in {"kw", "agg"} \/ (a.t = "spread" /\ ~IsListy(a.v))
+IsPosish(a) == a.t = "pos" \/ (a.t = "spread" /\ IsListy(a.v))
+PosAfterKw(as) == \E i \in 1..Len(as), j \in 1..Len(as) : i < j /\ IsKwish(as[i]) /\ IsPosish(as[j])
+
+\* key=flagname (or pre:key=flagname): the keyword is taken for the flag and the keyword argument is dropped
+FlagKw(a) == a.t \in {"kw", "agg"} /\ a.v.t = "var" /\ a.v.n \in FlagNames
+DevFlagApplies(args) == \E i \in 1..Len(args) : FlagKw(args[i])
+DevFlagArgs(args) == [i \in 1..Len(args) |-> IF FlagKw(args[i]) THEN Flag(args[i].v.n) ELSE args[i]]
+DevFlag(args) ==
+  LET as == DevFlagArgs(args)
+      twice == \E i \in 1..Len(as), j \in 1..Len(as) : i < j /\ as[i].t = "flag" /\ as[j] = as[i] IN
+  [name |-> "kw-value-named-like-flag:taken-as-flag", path |-> "both",
+   outcome |-> IF twice THEN "tse" ELSE "values",
+   expect |-> IF twice THEN NoValues ELSE Denote(as)]
+
+\* ...value|filter at top level: the filter chain's value is passed whole as one positional argument
+SpreadFilt(a) == a.t = "spread" /\ a.tok = "..." /\ a.v.t = "filt"
+DevSpreadApplies(args) == \E i \in 1..Len(args) : SpreadFilt(args[i])
+DevSpreadArgs(args) == [i \in 1..Len(args) |-> IF SpreadFilt(args[i]) THEN Pos(args[i].v) ELSE args[i]]
+DevSpread(args) ==
+  LET as == DevSpreadArgs(args)
+      pk == PosAfterKw(as) IN
+  [name |-> "top-level-spread-with-filter:passed-unspread", path |-> "both",
+   outcome |-> IF pk THEN "exc:TypeError" ELSE "values",
+   expect |-> IF pk THEN NoValues ELSE Denote(as)]
+
+\* {% component %} only: a translation string that is not a whitespace-delimited word of its own
+RECURSIVE HasTrans(_)
+HasTrans(v) ==
+  CASE v.t \in {"list", "dict"} -> \E i \in 1..Len(v.items) : HasTrans(v.items[i])
+    [] v.t = "spread" -> HasTrans(v.v)
+    [] v.t = "pair"   -> HasTrans(v.k) \/ HasTrans(v.v)
+    [] v.t = "trans"  -> TRUE
+    [] v.t = "filt"   -> HasTrans(v.b) \/ \E i \in 1..Len(v.fs) : Len(v.fs[i].a) = 1 /\ HasTrans(v.fs[i].a[1])
+    [] OTHER          -> FALSE
+DevTransApplies(args) == \E i \in 1..Len(args) : args[i].t # "flag" /\ HasTrans(args[i].v)
+DevTrans(args) == [name |-> "component-tag:translation-string-glued-to-other-syntax:StopIteration", path |-> "comp",
+                   outcome |-> "exc:StopIteration", expect |-> NoValues]
+
+Devs(args) == (IF DevFlagApplies(args) THEN <<DevFlag(args)>> ELSE <<>>)
+              \o (IF DevSpreadApplies(args) THEN <<DevSpread(args)>> ELSE <<>>)
+              \o (IF DevTransApplies(args) THEN <<DevTrans(args)>> ELSE <<>>)
 
 (* ------------------------------ documented examples ------------------- *)
 \* parse_tag docstring, "Invalid syntax" (and tests/test_tag_parser.py test_spread_onto_key).
